@@ -17,6 +17,8 @@ pub const MODE_DIST: u8 = 4;
 pub const MODE_MACHINE_VALIDATE: u8 = 5;
 /// transition := any well-formed action (simulator / ffi harnesses)
 pub const MODE_ANY_ACTION: u8 = 6;
+/// Machine::validate := ghost, sample_limit := contract (k_framework_new)
+pub const MODE_FRAMEWORK_NEW: u8 = 7;
 
 pub fn set_mode(m: u8) {
     unsafe { REPLAY_MODE = m };
@@ -36,6 +38,9 @@ pub fn mode() -> u8 {
 pub fn leaf_contracts_on() -> bool {
     let m = mode();
     m == MODE_L1A || m == MODE_L1B
+}
+pub fn limit_contract_on() -> bool {
+    leaf_contracts_on() || mode() == MODE_FRAMEWORK_NEW
 }
 
 pub use crate::framework::verif_kani::{aa_calls, aa_duration, aa_last, aa_timeout, new_unchecked_impl as new_unchecked, transition_any_action_impl as transition_any_action, AnyAction, VD, VT};
